@@ -12,7 +12,7 @@ PROPS["C19"] = dict(
           "table_extrapolate: every function/region/avgpoints/curvature/no-flagupdate; NT = at least one point extrapolated. "
           "integrate_differentiate: table_integrate o csg_resample --derivative and the reverse order on smooth f with analytic derivative "
           "bounds (cubic/akima/linear), derived O(h) bounds; NT = bound <= 0.2*(max f - min f). "
-          "csg_call_dispatch: csg_call --show key pair -> script path, csg_call run == direct perl run."),
+          "csg_call_dispatch: csg_call --show key pair -> script path, csg_call run == direct perl run. A third of the input tables carry an error column the tool is not asked to use ('x y yerr flag' without --with-errors: the last column is the flag)."),
     assumptions=COMMON_ASSUME + [
         "update_ibi_pot: an undefined point left of the g_cur maximum with no valid point in between may carry either 0 (script) or dU at the maximum (counted as ambiguous-left-of-max-gap)",
         "dist_boltzmann_invert: the additive constant the statement allows is removed before comparing; the 10-valid-points rejection is accepted only when the contiguous valid run is shorter than 10",
